@@ -80,7 +80,12 @@ func (g *gen) datum(d int) N {
 	case ch < 6:
 		return nilV()
 	case ch < 7 && d > 0:
-		return lst(sym("quote"), g.datum(d-1)) // 'x inside quoted data is the list (quote x)
+		if g.one(2) {
+			// 'x inside quoted data: the datum is the list (quote x) (value kind qobj: the machine reads it as that list)
+			g.feats["quote-shorthand-in-data"] = true
+			return N{"k": "qobj", "v": g.datum(d - 1)}
+		}
+		return lst(sym("quote"), g.datum(d-1)) // (quote x) inside quoted data is the list (quote x)
 	case d > 0:
 		es := []any{}
 		if g.one(3) {
@@ -798,6 +803,14 @@ func (g *gen) loop(d int, vars []string) N {
 		test := N{"k": "lt", "a": lit(I(lim)), "b": N{"k": "var", "n": v}}
 		res := []any{g.m(N{"k": "add", "a": N{"k": "var", "n": w}, "b": N{"k": "var", "n": acc}})}
 		if g.one(2) {
+			// (z 0 v) in front: a step form that is a bare variable; the later variable w is stepped by a form that reads z,
+			// in do with the value z had before this round of steps
+			z := g.fresh()
+			vs = append([]any{N{"n": z, "init": lit(I(0)), "step": N{"k": "var", "n": v}}}, vs...)
+			wstep := vs[2].(N)
+			wstep["step"] = g.m(N{"k": "add", "a": N{"k": "add", "a": N{"k": "var", "n": w}, "b": N{"k": "var", "n": v}}, "b": N{"k": "var", "n": z}})
+			res = []any{g.m(N{"k": "add", "a": N{"k": "add", "a": N{"k": "var", "n": w}, "b": N{"k": "var", "n": acc}}, "b": N{"k": "var", "n": z}})}
+		} else if g.one(2) {
 			// a variable without a step form keeps its value from one iteration to the next: for the machine its step form is
 			// the variable itself
 			u := g.fresh()
@@ -997,6 +1010,8 @@ func renderVal(v N) string {
 			parts = append(parts, renderVal(e.(N)))
 		}
 		return "(" + strings.Join(parts, " ") + ")"
+	case "qobj":
+		return "'" + renderVal(v["v"].(N))
 	}
 	panic(fmt.Sprint("renderVal ", v))
 }
@@ -1298,6 +1313,10 @@ func c01Project(o slip.Object) N {
 	}
 	if o == slip.True {
 		return N{"k": "t"}
+	}
+	if f, ok := o.(slip.Funky); ok && f.GetName() == "quote" && len(f.GetArgs()) == 1 {
+		// what the reader makes of 'x: reported as such (the datum is the list (quote x): open finding C01-F7)
+		return N{"k": "qobj", "v": c01Project(f.GetArgs()[0])}
 	}
 	return N{"k": "other", "s": slip.ObjectString(o)}
 }
